@@ -322,14 +322,13 @@ def _hyp_once(sub, n_examples, seed, excluded, tier="quick"):
         if state["last"] is not None and state["gave_up"] and "Flaky" in type(e).__name__:
             case, v = state["last"]
             return rec, Failure(sub.name, case, v.sig, v.msg + " [shrink budget exhausted: case not minimal]")
-        if state["last"] is not None and "Flaky" in type(e).__name__ and any(
-                k in state["last"][1].sig for k in ("asan:", "ubsan:", "signal-or-abort")):
-            # a sanitizer report / crash of the code under test that does not recur on every run of the same input (reads of
-            # uninitialised or out-of-bounds memory): the report itself is trustworthy, the input is kept unshrunk
-            case, v = state["last"]
-            return rec, Failure(sub.name, case, v.sig, v.msg + " [not reproduced on every run of this input: undefined behaviour]")
         if state["last"] is not None and "Flaky" in type(e).__name__:
-            raise HarnessError("flaky oracle in %s: %r" % (sub.name, e))
+            # the same input gave a violation on one evaluation and not on another.  Every oracle here is a pure function of the
+            # case on the unchanged tree (checked over many seeds), so this is the code under test behaving non-deterministically
+            # (reads of uninitialised or out-of-bounds memory, state leaking between calls): the recorded violation is reported,
+            # the input is kept unshrunk and may not reproduce on every replay
+            case, v = state["last"]
+            return rec, Failure(sub.name, case, v.sig, v.msg + " [not reproduced on every evaluation of this input: non-deterministic behaviour]")
         raise
     return rec, None
 
